@@ -89,15 +89,16 @@ PROPS = {
     'C08': dict(functional=True, generic=False, level='proof', trusted_base=[], assumptions=PY_SEM,
                 level_text='BytesIOWithOffsets.tell/seek and from_reading are proved against the abstract substream model (tell = inner position + parent offset; absolute seek subtracts it; the substream holds exactly the next n bytes and starts reporting at the absolute outer position); FixedSized and Prefixed (with and without includelength) are proved to hand their inner construct a substream over exactly the region, to return its value, and to leave the outer stream at the region end whatever the inner construct consumed; Pointer and RawCopy offsets are absolute. NullTerminated, NullStripped, OffsettedEnd and ProcessXor are covered only by the cross-cutting clauses so far.',
                 level_note='Inner constructs are known through the interface functions, whose arguments include the absolute base of the stream. Trusted: pyvc, solvers, E3.'),
-    'C01': dict(functional=False, generic=False, level='proof', trusted_base=[], assumptions=PY_SEM,
+    'C01': dict(functional=False, generic=False, closure_tags=('C03', 'C08', 'C10', 'C14', 'C15'), level='proof', trusted_base=[], assumptions=PY_SEM,
                 level_text='Round-trip lemma proved as a ghost program over the verified method contracts (build, then parse the built bytes followed by arbitrary trailing data: parse succeeds, returns the value build returned and consumes exactly the built bytes) for: Padded, Aligned, FixedSized, Prefixed, Const, Flag, Bytes, GreedyBytes and FormatField in its 27 integer/bool formats. The lemma is parametric in the sub-constructs (any construct satisfying the round-trip trait, at any nesting depth, by structural induction) and holds for all values, lengths, moduli and trailing data. Struct is verified against specification folds (Layer A) but its fold round-trip lemma, VarInt/ZigZag/BytesInteger/BitsInteger, strings, arrays and the remaining combinators are not yet under this lemma.',
                 level_note='Hypotheses (listed in the evidence): round-trip and sized traits of sub-constructs (induction hypotheses), context agreement, sub-constructs that do not observe absolute stream positions, value-faithful length fields. Trusted: pyvc, solvers, E1-E3.'),
-    'C07': dict(functional=True, generic=False, level='proof', trusted_base=[], assumptions=PY_SEM,
+    'C07': dict(functional=True, generic=True, level='proof', trusted_base=[], assumptions=PY_SEM,
                 level_text="Struct._parse and Struct._build are proved equal, member by member for any number of members, to specification folds over the member list (loop invariant: state after k members = fold(k)); the nested scope is proved to be a child of the enclosing scope (_ is the enclosing scope, _params/_parsing/_building/_sizing copied, _root resolved through the parent, _index inherited), fresh and distinct; every named member value is stored in the scope and in the result after the member and before the next one; when building, all supplied siblings are in the scope before the first member is built and each member's returned value replaces it afterwards. evaluate() returns the parameter's value in the context it is given. Sequence, FocusedSeq, Union, LazyStruct, Array/_index and the public entry points are covered only by the cross-cutting frame clauses (C17), not yet by this functional contract.",
                 level_note='Members are sub-constructs known through the interface functions; member names are assumed not to shadow the reserved scope keys. Trusted: pyvc, solvers.'),
     'C11': dict(functional=True, generic=False, level='proof', trusted_base=[], assumptions=PY_SEM, extra=native_tables('C11', ('exprs',)),
                 level_text="Every operator method of ExprMixin (12 binary, 12 reflected, 3 unary, 7 comparison/containment) is proved by symbolic execution to build the node Python's data model prescribes (operator and operand order). Printing and evaluation are decided by complete enumeration of finite tables on the real classes: every node form x slot x syntactic class of operand is rendered with repr and str, evaluated by Python itself with the placeholders bound, and compared with the operator tree (a junction's parse depends only on the class of the operand text, so by structural induction the result holds for every tree); evaluation is checked with spy operands for every operand kind and both call shapes; opnames is checked entry by entry.",
                 level_note="Python's own parser/evaluator is the trusted grammar. The induction step (junction independence) is an argument, not a machine-checked proof."),
+    'C15': dict(functional=True, generic=False, level='proof', trusted_base=[], assumptions=PY_SEM, claimed=False, level_text='wip', level_note='wip'),
     'C17': dict(functional=False, generic=True, level='proof', trusted_base=[E3],
                 level_text='Frame conditions for ' + GENERIC_NOTE + ': no method stores to an attribute of self, of a sub-construct, of a class or module; parsing leaves the stream buffer unchanged; the context argument is modified only at _index and unrelated pre-existing containers are untouched (proved through every loop as an invariant). Outcomes of sub-construct calls are functions of (construct, buffer, position, context), so repeated or interleaved calls agree. Threads are not explored: with the frames proved, calls share no mutable state except caller-supplied arguments.',
                 level_note='Thread schedules are argued from the frames, not explored. parse_file/build_file and the bytes/bytearray/memoryview entry points are not under contract yet. Documented exceptions (Rebuffered.stream2, Debugger.retval) are out of scope.',
